@@ -69,6 +69,9 @@ impl Property for C14 {
     fn id(&self) -> &'static str {
         "C14"
     }
+    fn fuzzable(&self) -> bool {
+        true
+    }
     fn rule(&self) -> String {
         "cases: programs from the typed generator with the object profile (constructor functions for up to 6 classes with parent chains ending in null/int/bool/array/object, overriding, operator/get/set members used through sugar and explicit spelling, inherited candidates preferred, one injected object-model fault in ~15%: method arity +1/-1, unknown field, unknown method with and without a primitive at the chain's end), plus hand-written seeds for every clause. oracle: reference semantics (dispatch, arity, delegation, reference vs value). non-trivial: a method is found in a strict ancestor, or operator/index sugar lands in a user method, or a built-in is reached through an object parent, or a mutation is observed through a different kind of location (variable, this, field, element, call result) than it was made through, or an argument-count failure occurs; distinct by source".into()
     }
